@@ -28,7 +28,7 @@ let () =
       show_bool (verdict_spec_b (zv nerrs) (zv s) (zv f) (zv d) (vopts ign mf mr))
     | _ -> failwith "verdict_spec: arity")
 
-let () = Handlers.register reg
+let () = List.iter (fun f -> f reg) !Handlers.all
 
 let () =
   try
